@@ -210,6 +210,11 @@ class C15Runner:
         for i in range(ngen):
             meta, cfg = gen_desc.gen_case(rng)
             cases.append((f"gen:{seed}:{i}", cfg))
+        # degenerate widths: one column / one row under XY (zero-bit coordinate fields)
+        for (m, n, sides) in [(1, 3, ["North"]), (3, 1, ["East"])]:
+            c = gen_desc.gen_mesh(rng, "XY", rng.choice(["axi", "narrow-wide"]), m=m, n=n, sides=sides, partial_local=False)
+            if c:
+                cases.append((f"xy-line:{m}x{n}", c))
         stats = collections.Counter()
         samples = []
         jobs = []
@@ -239,7 +244,16 @@ class C15Runner:
         hist_out = tempfile.mktemp(suffix=".json")
         order = []
         for name, cfg in cases:
-            others = [c for n, c in rng.sample(cases, min(3, len(cases))) if n != name]
+            others = [c for n, c in rng.sample(cases, min(2, len(cases))) if n != name]
+            # histories that reuse this description's names: other declaration order, one endpoint less
+            v1 = dict(cfg, endpoints=list(reversed(cfg["endpoints"])), connections=list(reversed(cfg["connections"])))
+            others.append(v1)
+            if len(cfg["endpoints"]) > 2:
+                gone = cfg["endpoints"][-1]["name"]
+                v2 = dict(cfg, endpoints=cfg["endpoints"][:-1],
+                          connections=[c for c in cfg["connections"] if gone not in (c["src"], c["dst"])])
+                others.append(v2)
+            rng.shuffle(others)
             order.append((name, len(others)))
             json.dump(others + [cfg], open(hist_in, "w"))
             r = subprocess.run([PY, "-c", INPROC_SCRIPT, hist_in, hist_out], capture_output=True, text=True, timeout=900)
@@ -312,10 +326,9 @@ class C15Runner:
                           ("len(endpoints)", qv[6], len(cfg["endpoints"])), ("sum(num)", qv[7], n_inst),
                           ("num_endpoints=instances", qv[0], n_inst)]
                 if algo in ("ID", "SRC"):
-                    checks.append(("id_bits", qv[1], emb["id_bits"] if qv[1] != 0 else qv[1]))
+                    checks.append(("id_bits", qv[1], emb["id_decl"]))
                 if algo == "XY":
-                    checks += [("x_bits", qv[2], emb["x_bits"] if qv[2] != 0 else qv[2]),
-                               ("y_bits", qv[3], emb["y_bits"] if qv[3] != 0 else qv[3])]
+                    checks += [("x_bits", qv[2], emb["x_decl"]), ("y_bits", qv[3], emb["y_decl"])]
                 if algo == "SRC":
                     checks.append(("route_bits", qv[4], emb["route_bits"]))
                 for nm, a, b in checks:
